@@ -55,7 +55,7 @@ EXTRA_IMPORTS = (
 )
 HEAD = HEADER + EXTRA_IMPORTS
 
-ANNOT_OPS = {"set_precision": 3.0, "set_memory": 3.0, "set_window": 2.0}
+ANNOT_OPS = {"set_precision": 3.0, "set_memory": 3.0, "set_window": 2.0, "inline": 0.6}
 
 C_KEYWORDS = ["int", "double", "register", "static", "const", "float", "void", "char", "long", "short", "auto", "unsigned",
               "struct", "sizeof", "switch", "goto", "default", "do", "case", "enum", "extern", "inline", "volatile", "typedef",
@@ -553,7 +553,17 @@ def gen_alias_chain(rng):
     return GenProgram(HEAD + "\n".join(L) + "\n", "root", ["leafa"], [], {"family": "alias_chain"})
 
 
-FAMILIES = [("annotated", gen_annotated, 0.28), ("depth2", gen_depth2, 0.26), ("instr", gen_instr, 0.10), ("hostile", gen_hostile, 0.16), ("externs", gen_externs, 0.07), ("alias_chain", gen_alias_chain, 0.13)]
+def gen_name_nest(rng):
+    """vf/ctemplates.t_name_nest: same-named variables of caller, callee and callee's callee that
+    inlining brings into nested scopes (emitted identifiers must stay distinct)"""
+    from ..ctemplates import t_name_nest
+
+    gp = t_name_nest(rng)
+    gp.meta["family"] = "name_nest"
+    return gp
+
+
+FAMILIES = [("name_nest", gen_name_nest, 0.06), ("annotated", gen_annotated, 0.28), ("depth2", gen_depth2, 0.26), ("instr", gen_instr, 0.10), ("hostile", gen_hostile, 0.16), ("externs", gen_externs, 0.07), ("alias_chain", gen_alias_chain, 0.13)]
 
 
 def make_templates(ctx):
